@@ -201,6 +201,8 @@ package bigbuff
 //@   # between polls Get waits for nothing that outlives the consumer's context
 //@   cancellable byctx : ctxdone(c.ctx)
 //@   loop 0 invariant unset : value == nil
+//@   # Get goes round again only when the consumer was still open at this round's check: it cannot spin on a closed consumer
+//@   loop 0 step live : now(err) == nil
 //@   ensures step : err == nil ==> value == taken(c, old(cursor(c))) && cursor(c) == old(cursor(c)) + 1 && c.k == old(c.k)
 //@   ensures replay : err == nil && old(c.rollback) > 0 ==> c.rollback == old(c.rollback) - 1 && unchanged(c.buffer)
 //@   ensures take : err == nil && old(c.rollback) == 0 ==> len(c.buffer) == old(len(c.buffer)) + 1 && c.rollback == 0 && all(i, 0, old(len(c.buffer)), c.buffer[i] == old(c.buffer[i]))
@@ -209,8 +211,6 @@ package bigbuff
 
 //@ func (*Channel).Get$1
 //@   props C13 C12
-//@   # a closed consumer ends the polling round with the error set: Get cannot spin on a cancelled context
-//@   ensures closed_stops : lasterr(c.ctx) != nil ==> ret
 //@   after-call (reflect.Value).TryRecv#0 assume history : ret1 ==> iface(ret0) == taken(c, c.k + len(c.buffer))
 //@   at-call (reflect.Value).TryRecv#0 open : lasterr(c.ctx) == nil && heldW(c.mutex) && c.rollback == 0
 
